@@ -31,6 +31,7 @@ fn classes_of(stats: &CaseStats) -> BTreeMap<String, u64> {
     add("with_rotation", stats.rotations > 0);
     add("with_stall_window", stats.stall_windows > 0);
     add("with_single_worker_step_inside_window", stats.worker_steps > 0);
+    add("with_clock_jump_inside_an_operation", stats.jumps_inside_operations > 0);
     add("with_iterator_step_after_a_write", stats.iterator_steps_after_write > 0);
     add("with_same_key_burst", stats.same_key_bursts > 0);
     add("with_read_between_delete_and_ack", stats.reads_in_stall_after_delete > 0);
@@ -196,6 +197,8 @@ pub fn seq_campaigns(property: &str) -> Vec<SeqCampaign> {
         "C05" => vec![main("seq-main", 3000, 50_000, nt_c05, RULE_C05)],
         "C06" => vec![
             main("seq-main", 3000, 60_000, nt_c06, RULE_C06),
+            SeqCampaign { name: "seq-overcommitted", params: profile("C06"), policy: Policy { allow_over_limit_upsert: true, ..Policy::default() }, cases_quick: 2000, cases_thorough: 30_000, nt: |s| s.max_used_permille > 1000 && (s.evictions + s.rejected_space) >= 1,
+                rule: "as seq-main, but weight-raising upserts are generated too, so the cache gets over-committed through the recorded finding F5 (noted, does not end the case): with negative free space admission must still evict exactly until enough space results and accept only then; non-trivial = the weight in use exceeded the limit at some point and a later put needed eviction or was refused for space" },
             SeqCampaign { name: "seq-contended", params: profile("C06-contended"), policy: Policy::default(), cases_quick: 250, cases_thorough: 4000, nt: |s| s.evictions + s.rejected_space >= 1,
                 rule: "as seq-main, but 2-5 background threads hammer reads of three dedicated keys with saturated estimates for the whole case (pool, hand-over channel, access consumer and the sketch's lock are busy while the worker decides); the estimates of all other keys are frozen (read while the readers are paused and the consumer idle; 4 Mi counters so that no ageing happens), so every sampled and incoming estimate seen by admission must still equal the pre-read one; non-trivial = a put needed eviction or was refused for space" },
         ],
@@ -232,7 +235,8 @@ pub fn seq_case_result(case: &SeqCase, policy: &Policy, nt: NtRule) -> CaseResul
 pub fn seq_case_result_focus(case: &SeqCase, policy: &Policy, nt: NtRule, focus: &str) -> CaseResult {
     let outcome = run_seq_case_focus(case, policy, focus);
     CaseResult {
-        nontrivial: nt(&outcome.stats) && outcome.failure.is_none(),
+        // a deferred failure of another property (noted at the end of the case) does not make the case trivial
+        nontrivial: nt(&outcome.stats) && outcome.failure.as_ref().map(|failure| !focus.is_empty() && !failure.concerns(focus)).unwrap_or(true),
         classes: classes_of(&outcome.stats),
         suppressed: outcome.stats.suppressed.clone(),
         failure: outcome.failure,
